@@ -139,6 +139,14 @@ Proof.
   - intros w2 H2. eapply invU_trans; eauto.
 Qed.
 
+Lemma keepsU_on_unwind {A} (cleanup : MV unit) (c : MV A) :
+  frame cleanup -> keepsU c -> keepsU (on_unwind cleanup c).
+Proof.
+  intros Hf Hc w Hw Hu. apply wp_on_unwind_frame; [exact Hf|].
+  eapply wp_mono; [apply Hc; assumption | |]; cbn beta; [auto|].
+  intros w' H w'' Hs. eapply invU_frame; eauto.
+Qed.
+
 Lemma stays_keepsU {A} (c : MV A) : stays c -> keepsU c.
 Proof.
   intros Hc w Hw Hu. eapply wp_mono; [apply Hc; exact Hw | |]; cbn beta.
@@ -340,7 +348,7 @@ Proof.
     replace (Spec.elems (self w')) with (fst (fst (l_insert kcls (Spec.elems (self w)) k v u)))
       by (rewrite <- Hins; reflexivity).
     apply Uniq_l_insert. exact Hu.
-  - intros w' [_ [[Hs _] _]]. apply invU_refl; auto.
+  - intros w' [_ [Hs _]]. apply invU_refl; auto.
 Qed.
 
 Lemma keepsU_insert_ii k v u : keepsU (insert_ii E debug k v u).
@@ -1153,9 +1161,12 @@ Lemma keepsU_extend_loop nx items : keepsU (extend_loop E debug nx items).
 Proof.
   induction items as [|[k v] rest IH]; cbn [extend_loop].
   - apply frame_keepsU. apply Safety3.frame_call_next.
-  - apply keepsU_bind; [apply frame_keepsU; apply Safety3.frame_call_next|]. intros _.
+  - apply keepsU_bind.
+    { apply keepsU_on_unwind; [apply frame_unwind_pairs|]. apply frame_keepsU; apply Safety3.frame_call_next. }
+    intros _. apply keepsU_bind; [|intros _; exact IH].
+    apply keepsU_on_unwind; [apply frame_unwind_pairs|].
     apply keepsU_bind; [apply (keepsU_insert E debug HL)|]. intros old.
-    apply keepsU_bind; [apply frame_keepsU; apply frame_drop_opt_val|]. intros _. exact IH.
+    apply frame_keepsU; apply frame_drop_opt_val.
 Qed.
 
 Lemma keepsU_op_from_iter nx items : keepsU (replace_with E (from_iter E debug nx items) []).
@@ -1186,8 +1197,11 @@ Lemma keepsU_s_extend_loop nx items : keepsU (s_extend_loop E debug nx items).
 Proof.
   induction items as [|k rest IH]; cbn [s_extend_loop].
   - apply frame_keepsU. apply Safety3.frame_call_next.
-  - apply keepsU_bind; [apply frame_keepsU; apply Safety3.frame_call_next|]. intros _.
-    apply keepsU_bind; [apply keepsU_s_insert|]. intros _. exact IH.
+  - apply keepsU_bind.
+    { apply keepsU_on_unwind; [apply frame_unwind_pairs|]. apply frame_keepsU; apply Safety3.frame_call_next. }
+    intros _. apply keepsU_bind; [|intros _; exact IH].
+    apply keepsU_on_unwind; [apply frame_unwind_pairs|].
+    apply keepsU_bind; [apply keepsU_s_insert|]. intros _. apply keepsU_ret.
 Qed.
 
 Lemma keepsU_op_s_from_iter nx items : keepsU (replace_with E (s_from_iter E debug nx items) []).
